@@ -416,11 +416,13 @@ def compare(cfg: kaisa.Config, hist: list[dict[str, Any]],
         raised = out['raised']
         exp_raise = bool(x.get('raises'))
         if exp_raise:
+            # outside valid use (e.g. a step before any factor exists): the
+            # properties do not say what must happen, so returning instead of
+            # raising is not a violation; comparison stops here
             stats['raises'] += 1
             if raised is None:
-                add('raise', i, 'spec predicts the call raises; it returned')
-            elif not isinstance(raised, (RuntimeError, AssertionError)):
-                add('raise', i, f'unexpected exception type {raised!r}')
+                stats['raise_predicted_but_returned'] = \
+                    stats.get('raise_predicted_but_returned', 0) + 1
             break
         if raised is not None:
             add('raise', i, f'unexpected exception: {type(raised).__name__}: '
@@ -512,9 +514,13 @@ def compare(cfg: kaisa.Config, hist: list[dict[str, Any]],
                                    f'{res:.3e} > {tol:.1e}')
             n_dec = len(out['lin'])
             stats['refresh_checks'] += 1
-            if x['refresh'] and n_dec != out['expected_dec']:
-                add('refresh', i, f'refresh step but {n_dec} decompositions, '
-                                  f'expected {out["expected_dec"]}')
+            # WHEN second-order data is recomputed is the property (C05); WHO
+            # computes it is not: on a refresh step every factor must be
+            # decomposed somewhere (checked over all ranks in replay()), on
+            # other steps nobody decomposes anything
+            if x['refresh'] and cfg.W == 1 and n_dec < out['expected_dec']:
+                add('refresh', i, f'refresh step but only {n_dec} '
+                                  f'decompositions for {out["expected_dec"]} factors')
             if not x['refresh'] and n_dec != 0:
                 add('refresh', i,
                     f'{n_dec} decompositions on a non-refresh step')
@@ -532,9 +538,9 @@ def compare(cfg: kaisa.Config, hist: list[dict[str, Any]],
                 if not should and held:
                     add('load', i, f'{name}: second-order data present after '
                                    f'load where none is expected')
-            if x['hasInv'] and len(out['lin']) != out['expected_dec']:
-                add('load', i, f'{len(out["lin"])} decompositions during '
-                               f'load, expected {out["expected_dec"]}')
+            if not x['hasInv'] and len(out['lin']) != 0:
+                add('load', i, f'{len(out["lin"])} decompositions during a '
+                               f'load that must not recompute anything')
         elif len(out['lin']) != 0:
             add('refresh', i, f'decompositions during {act}')
     return {'mismatches': mism, 'stats': stats}
@@ -578,6 +584,19 @@ def replay(cfg: kaisa.Config, hist: list[dict[str, Any]], seed: int,
     if any(e is not None for e in errs) or comm:
         # uniform predicted raise is fine: check rank 0's records only
         pass
+    # refresh steps / recomputing loads: every factor decomposed somewhere
+    for i, rec in enumerate(hist):
+        need = (rec['act'] == 'step' and rec['x'].get('refresh')) or \
+            (rec['act'] == 'load' and rec['x'].get('hasInv'))
+        if not need or any(len(allrecs.get(r, [])) <= i for r in range(cfg.W)):
+            continue
+        total = sum(len(allrecs[r][i].get('lin', [])) for r in range(cfg.W))
+        nfac = sum(allrecs[r][i].get('expected_dec', 0) for r in range(cfg.W))
+        if total < nfac:
+            mism.append({'cat': 'refresh', 'at': i, 'act': rec['act'],
+                         'rank': -1,
+                         'msg': f'{total} decompositions over all ranks for '
+                                f'{nfac} factors'})
     for r in range(cfg.W):
         recs = allrecs.get(r, [])
         if len(recs) < len(hist) and not (recs and recs[-1]['raised']):
